@@ -1,5 +1,6 @@
 """C09 -- nearest-node enumeration visits every live table node exactly once, nearest bucket first."""
 import tableprop
+import vlib
 
 PROP = "C09"
 NOTE = ("theorems c09_walk_perm (finite sweep over all 161 start indices) and c09_enumeration_perm (every table satisfying the "
@@ -13,7 +14,59 @@ def run(res):
         "as C08, plus after random operations a dump followed by closest_nodes(target) for targets = local id, single-bit flips "
         "of it, ids of known nodes, random ids; the real iterator's exact output order is compared with the model and c09_ok "
         "checks: duplicate-free listing of exactly the live nodes, nodes sharing a longer prefix with the target first.",
-        ["the take-8-per-family part of the reply is covered by the handler model (C05)"])
+        ["the take-8-per-family part of the reply is covered by the handler model (C05) and by handler_part below"],
+        extra=handler_part)
+
+
+def handler_part(res):
+    """Reply node lists of the running node: tables of 9..40 live contacts; a find_node and a get_peers for the same key,
+    handled back to back, must list the same nodes; lists hold at most 8 pairwise distinct contacts, never the node itself;
+    every handled event is replayed through the Coq model (exact lists, exact order)."""
+    import nodegen
+    import nodeprop
+    vlib.ensure_model(nodeprop.RUN_TARGETS)
+
+    def gen(rng, consts, i):
+        return nodegen.gen_bigtable_server(rng, consts)
+
+    def checker(sc, meta, log, tr):
+        fn, gp = {}, {}
+        out = []
+        own = "%040x" % meta["own"]
+        for (t, kind, body) in log:
+            if kind != "WIRE":
+                continue
+            head, _, rendered = body.partition(" | ")
+            hp = head.split()
+            if hp[0] != meta["naddr"] or hp[1] != meta["src"] or " r id=" not in " " + rendered:
+                continue
+            f = dict(x.split("=", 1) for x in rendered.split(" ")[2:] if "=" in x)
+            tid = rendered.split(" ")[0][2:]
+            lists = (f.get("nodes", ""), f.get("nodes6", ""))
+            for l in lists:
+                names = [x for x in l.split(",") if x]
+                if len(names) > 8:
+                    out.append({"kind": "more than 8 nodes in a reply list", "time": t, "reply": rendered[:200]})
+                if len(set(names)) != len(names):
+                    out.append({"kind": "a reply lists a contact twice", "time": t, "reply": rendered[:200]})
+                if any(x.startswith(own + "@") for x in names):
+                    out.append({"kind": "a reply lists the node itself", "time": t})
+            if tid.startswith("f1"):
+                fn[tid[2:]] = lists
+            elif tid.startswith("f2"):
+                gp[tid[2:]] = lists
+        for j, l in fn.items():
+            if j in gp and gp[j] != l:
+                out.append({"kind": "find_node and get_peers for the same key, handled back to back, list different nodes",
+                            "probe": j, "find_node": l, "get_peers": gp[j]})
+        return out[:3]
+
+    nodeprop.explore(
+        res, PROP, gen, checker, 10, 150,
+        "one real serving node bootstrapped into 9..40 scripted contacts (ids spread over the first 12 buckets and at random); "
+        "8-20 probe pairs find_node(key)/get_peers(key) 1 ns apart for key = own id / a known id / a single-bit flip / random, "
+        "all want variants; checker on the reply datagrams; every handled event replayed through the Coq model",
+        [], part="handler_part")
 
 
 def replay(path):
